@@ -186,6 +186,34 @@ func (v *Verifier) findImport(from *types.Package, name string) *types.Package {
 	return nil
 }
 
+// activateImmutables makes the immutable declarations of cs and of the contract sets of all
+// packages it (transitively) imports the active ones.
+func (v *Verifier) activateImmutables(cs *ContractSet) {
+	immutableComps = map[string]bool{}
+	if cs == nil {
+		return
+	}
+	seen := map[string]bool{}
+	var visit func(path string)
+	visit = func(path string) {
+		if seen[path] {
+			return
+		}
+		seen[path] = true
+		if c := v.contracts[path]; c != nil {
+			for _, n := range c.Immutable {
+				immutableComps[n] = true
+			}
+		}
+		if p := v.pkgByPath[path]; p != nil {
+			for ip := range p.Imports {
+				visit(ip)
+			}
+		}
+	}
+	visit(cs.PkgPath)
+}
+
 // targetName renders the contract key of a function.
 func targetName(fn *ssa.Function) string {
 	if fn.Parent() != nil {
@@ -365,6 +393,9 @@ func (v *Verifier) buildPureAxiom(spec *FuncSpec, cs *ContractSet, callee *ssa.F
 	if len(ens) == 0 {
 		return True
 	}
+	saved := immutableComps
+	v.activateImmutables(cs)
+	defer func() { immutableComps = saved }()
 	r := &Run{v: v, fname: "axiom:" + spec.Target, assumptions: map[string]bool{}, trustedUsed: map[string]bool{}, maxPaths: 1}
 	st := newState()
 	vars := map[string]*Val{}
@@ -608,6 +639,9 @@ func (v *Verifier) lemmaTerm(l *Lemma) *Term {
 	if t, ok := lemmaTermCache[l]; ok {
 		return t
 	}
+	saved := immutableComps
+	v.activateImmutables(l.Pkg)
+	defer func() { immutableComps = saved }()
 	r := &Run{v: v, fname: "lemma:" + l.Name, assumptions: map[string]bool{}, trustedUsed: map[string]bool{}, maxPaths: 1}
 	st := newState()
 	env := &SpecEnv{run: r, st: st, old: st, cs: l.Pkg, mode: "lemma", vars: map[string]*Val{}}
@@ -633,6 +667,7 @@ type FuncResult struct {
 func (v *Verifier) VerifyFunc(cs *ContractSet, spec *FuncSpec) (res *FuncResult) {
 	fname := cs.Label + "." + spec.Target
 	res = &FuncResult{Name: fname}
+	v.activateImmutables(cs)
 	fn := v.lookupFunc(cs.PkgPath, spec.Target)
 	if fn == nil {
 		res.Err = "target function not found in the code"
@@ -757,6 +792,7 @@ func (v *Verifier) VerifyLemma(l *Lemma) (o *Oblig, err string) {
 			}
 		}
 	}()
+	v.activateImmutables(l.Pkg)
 	t := v.lemmaTerm(l)
 	o = &Oblig{Func: l.Pkg.Label, Clause: "lemma." + l.Name, Props: l.Props, Goal: t}
 	for _, u := range l.Uses {
